@@ -127,6 +127,13 @@ def judge(ctx, case, t):
       if x not in prio_here and x not in accepted_normal:
         ctx.fail('C07:invented-datapoint', 'destination %r wrote %d which never arrived at its queue' % (d, x), case)
         return False
+  for d in t.dests:
+    for tr in t.transports[d]:
+      if getattr(tr, 'late_writes', None):
+        ctx.fail('C07:write-after-close', 'destination %r: %d bytes were written to the connection after loseConnection() had '
+                 'been called on it (close requested before the queue was transmitted)' % (d, sum(map(len, tr.late_writes))),
+                 case, 'stop-drains')
+        return False
   # stop: a connection may be closed only after what was queued at stop time has been written
   if t.stop_snapshot is not None:
     for info in t.closing_seen.values():
